@@ -11,8 +11,10 @@ EXTENDS AdminApiContract, Sequences, Json, TLC, IOUtils
 
 TLog == ndJsonDeserialize(IOEnv.VERIF_TRACE)
 
-VARIABLE l
-tvars == <<cvars, l>>
+VARIABLES l,
+          exp     \* per client: status class of the reply that was observed for the pending request (copied by
+                  \* the driver from the `ret` event onto the `inv` event): prunes the search, nothing else
+tvars == <<cvars, l, exp>>
 
 IsEvent(e) == l <= Len(TLog) /\ TLog[l].ev = e /\ l' = l + 1
 Ev == TLog[l]
@@ -20,9 +22,11 @@ Ev == TLog[l]
 TReset == /\ IsEvent("reset")
           /\ objs' = NoObjs /\ ver' = Ev.ver
           /\ cst' = [c \in Clients |-> "idle"] /\ cop' = [c \in Clients |-> NoOp] /\ crep' = [c \in Clients |-> NoRep]
+          /\ exp' = [c \in Clients |-> "none"]
 
 TInv(c) == /\ IsEvent("inv") /\ Ev.p = c
            /\ Invoke(c, [t |-> Ev.op, n |-> Ev.n, k |-> Ev.k, mk |-> Ev.mk])
+           /\ exp' = [exp EXCEPT ![c] = Ev.r_st]
 
 IsMutation(t) == t \in {"create", "update", "delete"}
 
@@ -32,17 +36,18 @@ TRet(c) == /\ IsEvent("ret") /\ Ev.p = c /\ cst[c] = "done"
            /\ (cop[c].t = "get" /\ Ev.st = "ok") => (crep[c].k = Ev.k /\ crep[c].mk = Ev.mk)
            /\ (cop[c].t = "list") => crep[c].all = Ev.objs
            /\ Return(c)
+           /\ UNCHANGED exp
 
-TLin(c) == Lin(c) /\ UNCHANGED l
+TLin(c) == Lin(c) /\ crep'[c].st = exp[c] /\ UNCHANGED <<l, exp>>
 
 TFinal == /\ IsEvent("final")
           /\ \A c \in Clients : cst[c] = "idle"
           /\ objs = Ev.objs /\ ver = Ev.ver
-          /\ UNCHANGED cvars
+          /\ UNCHANGED <<cvars, exp>>
 
 TNext == TReset \/ TFinal \/ \E c \in Clients : TInv(c) \/ TLin(c) \/ TRet(c)
 
-TInit == l = 1 /\ CInit
+TInit == l = 1 /\ CInit /\ exp = [c \in Clients |-> "none"]
 TSpec == TInit /\ [][TNext]_tvars
 
 ASSUME TLCSet(1, 0)
